@@ -1769,3 +1769,24 @@ Definition ex_report (s : state) :=
   (balance s [0%N], claims_total s [0%N], map key (utxos s [0%N]), map key (spec_utxos (server s) s [0%N]),
    nget (kcs s) 0, length (pend s),
    forallb (fun n => incl_b (server_hist (server s) (W 0 n)) (get_hist s (W 0 n))) (seq 0 4)).
+
+(* ================================================================================================ *)
+(* subscribe_addresses: whatever the batch size, every address gets exactly one update task, with its own status *)
+Lemma combine_map_self {A B} (f : A -> B) l : combine l (map f l) = map (fun a => (a, f a)) l.
+Proof. induction l as [|x l IH]; simpl; congruence. Qed.
+
+Lemma chunks_fuel_flat (status : addr -> hist) b : 0 < b -> forall f l, length l <= f ->
+  flat_map (fun batch => combine batch (map status batch)) (chunks_fuel f b l) = map (fun a => (a, status a)) l.
+Proof.
+  intro B. induction f as [|f IH]; intros l L.
+  - destruct l; [reflexivity|simpl in L; lia].
+  - destruct l as [|x r]; [reflexivity|].
+    change (chunks_fuel (S f) b (x :: r)) with (firstn b (x :: r) :: chunks_fuel f b (skipn b (x :: r))).
+    cbn [flat_map]. rewrite combine_map_self. rewrite IH.
+    + rewrite <- map_app. rewrite firstn_skipn. reflexivity.
+    + rewrite skipn_length. cbn [length] in *. lia.
+Qed.
+
+Lemma subscribe_all b status addrs : 0 < b ->
+  subscribe_plan b addrs (map status) = map (fun a => (a, status a)) addrs.
+Proof. intro B. unfold subscribe_plan, chunks. apply chunks_fuel_flat; auto. Qed.
